@@ -34,7 +34,7 @@ def parse_registration_options_json(
     if isinstance(json_val, str):
         try:
             json_val = json.loads(json_val)
-        except JSONDecodeError:
+        except ValueError:
             raise InvalidJSONStructure("Unable to decode options as JSON")
 
     if not isinstance(json_val, dict):
